@@ -58,6 +58,7 @@ def decOp : List String → Option Op
   | ["sr", r] => (decRecv r).map .scriptRecv
   | ["die"] => some .ircDie
   | ["tick"] => some .tick
+  | ["pt"] => some .pingTimeout
   | ["loop"] => some .loop
   | _ => none
 
